@@ -282,6 +282,11 @@ def alloc_src(case):
             elif size_src == "dim":
                 L.append(P + f"%cd{r} = arith.constant {r} : index")
                 L.append(P + f"%sz{r} = memref.dim %A, %cd{r} : memref<{ranks}xi32>")
+            elif size_src == "dimx":
+                # the r-th size of the view is ANOTHER dimension of the argument, and that dim has a further user
+                L.append(P + f"%cd{r} = arith.constant {(r + 1) % rank} : index")
+                L.append(P + f"%sz{r} = memref.dim %A, %cd{r} : memref<{ranks}xi32>")
+                L.append(P + f'"test.op"(%sz{r}) {{tag = "dimuse{r}"}} : (index) -> ()')
             elif size_src == "iv":
                 L.append(P + f"%sz{r} = arith.addi %i{depth - 1}, %c1 : index")
             dyn_sizes.append(f"%sz{r}")
@@ -413,8 +418,10 @@ def run(chk):
             for rank in (1, 2, 3) + (() if quick else (4,)):
                 for dynmask in itertools.product((True, False), repeat=rank):
                     for dimidx in range(rank):
-                        for size_src in ("const", "min", "dim", "iv"):
+                        for size_src in ("const", "min", "dim", "iv", "dimx"):
                             if not any(dynmask) and size_src != "const":
+                                continue
+                            if size_src == "dimx" and rank < 2:
                                 continue
                             cases.append((kind, depth, rank, dynmask, dimidx, size_src))
     if quick and len(cases) > 260:
